@@ -107,7 +107,7 @@ class RatFun(object):
         return '(%r)/(%r)' % (self.n, self.d)
 
 
-IDENTITY_CALLS = ('float', 'Fraction', 'Decimal', 'int', 'abs_')
+IDENTITY_CALLS = ('float', 'Fraction', 'Decimal', 'int', 'abs_', 'str', 'repr')      # str / repr: the decimal text of a number, lifted by Fraction(str(x))
 
 
 class AlgEval(object):
